@@ -247,7 +247,7 @@ Definition put_chunk_src_expected : list string :=
    "md5_gen.update(chunk)";
    "md5 = base64.b64encode(md5_gen.digest())";
    "headers = {'Content-MD5': md5.decode()}";
-   "data = _Multipart([npy_header, memoryview(chunk.reshape(-1))])";
+   "data = _Multipart([npy_header, memoryview(chunk.reshape(-1).view(np.uint8))])";
    "self.request('PUT', url, chunk_name=chunk_name, headers=headers, data=data)"]%string.
 Definition mark_complete_src_expected : list string :=
   ["self.create_array(array_name)";
